@@ -56,8 +56,10 @@ LEVEL_NOTE = ("The algebra of SVD::svd is proved (Props/C01/SvdDecomp.lean: ever
               "theorems are C03_net_cofactors, C02_same_net, C08_net_datum, Props/C09Net.lean) and, since rounds 3c-8, from the network on: "
               "project_equations() is an executed model (Model/ProjectEquations.lean, drv_pe, stream pe of C05) whose outputs are theorems "
               "(Props/C01/ProjectEquations.lean: rows in range, clusters partition the rows, the min_x list, every element of unknowns_ "
-              "written once; distinct columns per row only under NoAlias = no observation names one point in two roles, which gama-local "
-              "does not enforce - it accepts from == to), composed in C01_net_of_project_equations_gap (network -> weighted LS solution for "
+              "written once; an observation that names one point in two roles - gama-local accepts from == to - gives a row that stores one column "
+              "index twice: since round 11/12 that needs no hypothesis (NoAlias is gone from every statement): RowsOK is the range condition only and the "
+              "coefficients add up in Problem.dense exactly as in project_equations (52e994b), class Adj (a7902736), Homogenization::run (6d0f7107) and "
+              "Envelope::set), composed in C01_net_of_project_equations_gap (network -> weighted LS solution for "
               "env/chol/gso from RankGap on (A, m0^2 Sigma^-1, min_x) alone) and C01_pe_matrix_is_jacobian (the matrix of that conclusion "
               "is C05's Jacobian, carrier R); a joint witness over R at LocalNetwork level (correlated cluster with an excluded "
               "observation, defect 1; Props/C01/NetWitness.lean, InputGap.lean) meets all hypotheses at once. The linearisation "
